@@ -142,8 +142,20 @@ Definition enc_outs (t : transport) (os : list outp) : list N :=
 
 Definition enc_set (l : list N) : list N := enc_list (fun k => [k]) (sort_by (fun k => k) l).
 
-Definition dump (s : tcp) : list N :=
-  [ctr s] ++ enc_set (pending_dials s) ++ enc_set (pending_inbound s) ++
+(* tcp/mod.rs and websocket/mod.rs carry the dialled address of a connection opened by `open` inside
+   the NegotiatedConnection; quic/mod.rs keeps it in `pending_dials` from negotiate(c) until the future
+   pushed by negotiate is polled (that entry is what makes the endpoint a dialer): the map of the QUIC
+   code is the model's plus the ids of the pending negotiate futures *)
+Definition dials_of (t : transport) (s : tcp) : list conn :=
+  match t with
+  | TQuic => fold_left (fun acc (x : fut * (conn * kind)) =>
+                          match snd (snd x) with KNeg => add (fst (snd x)) acc | _ => acc end)
+                       (pconn s) (pending_dials s)
+  | _ => pending_dials s
+  end.
+
+Definition dump (t : transport) (s : tcp) : list N :=
+  [ctr s] ++ enc_set (dials_of t s) ++ enc_set (pending_inbound s) ++
   [N.of_nat (length (praw s)); N.of_nat (length (pconn s))] ++ enc_set (opened s) ++
   enc_list (fun p : N * N => [fst p; b2n (mem (snd p) (aborted s))]) (sort_by fst (cancel_futures s)) ++
   enc_set (pending_open s).
@@ -151,7 +163,7 @@ Definition dump (s : tcp) : list N :=
 Fixpoint run_trace (t : transport) (s : tcp) (ks : list tcall) : list N :=
   match ks with
   | [] => []
-  | k :: r => let '(s1, os) := tstep t s k in enc_outs t os ++ dump s1 ++ run_trace t s1 r
+  | k :: r => let '(s1, os) := tstep t s k in enc_outs t os ++ dump t s1 ++ run_trace t s1 r
   end.
 
 Definition run_case (l : list N) : list N :=
